@@ -16,6 +16,18 @@ rep = Report("C15", "assertion sets of size 1..4 (quick) / ..5 (thorough) drawn 
              "chains, diamonds and cycles of sub-organisations; oracle = naive fixpoint", a.out)
 
 NP, NC = 2, 3
+from dataclasses import dataclass as _dataclass
+
+
+@_dataclass
+class InterimCEO(CEO):
+    """a subclass of a role class is a role of the same role taker"""
+
+    def __hash__(self):
+        return hash(self.person)
+
+
+ROLE = [CEO]
 
 
 def population():
@@ -23,7 +35,7 @@ def population():
     SymbolGraph()
     ps = [Person(name=f"p{i}") for i in range(NP)]
     cs = [Company(name=f"c{i}") for i in range(NC)]
-    ceo = CEO(person=ps[0])
+    ceo = ROLE[0](person=ps[0])
     return ps, cs, ceo
 
 
@@ -39,6 +51,8 @@ def apply(assertion, ps, cs, ceo):
         ps[assertion[1]].member_of = [cs[i] for i in assertion[2]]
     elif k == "members.add":
         cs[assertion[1]].members.add(ps[assertion[2]])
+    elif k == "members.add.ceo":
+        cs[assertion[1]].members.add(ceo)
     elif k == "members=":
         cs[assertion[1]].members = {ps[i] for i in assertion[2]}
     elif k == "sub.append":
@@ -61,6 +75,8 @@ def asserted_facts(assertion):
         return [("member_of", ("p", assertion[1]), ("c", i)) for i in assertion[2]]
     if k == "members.add":
         return [("members", ("c", assertion[1]), ("p", assertion[2]))]
+    if k == "members.add.ceo":
+        return [("members", ("c", assertion[1]), ("e", 0))]
     if k == "members=":
         return [("members", ("c", assertion[1]), ("p", i)) for i in assertion[2]]
     if k == "sub.append":
@@ -138,25 +154,26 @@ def observed(ps, cs, ceo):
     return fields, graph, dup, mult
 
 
-def consistent(aset):
+def consistent(aset, single_valued=True):
     """monotone histories only: a single-valued field gets one value (directly or by inference), a container assignment is
-    the only write to its field"""
+    the only write to its field.  single_valued=False: only the container part (the GRAPH is still the closure when a
+    single-valued field is overwritten: nothing is retracted from it, only the field shows the last value)"""
     wf = {}
     for x in aset:
         if x[0] == "works_for":
-            if wf.setdefault(x[1], x[2]) != x[2]:
+            if wf.setdefault(x[1], x[2]) != x[2] and single_valued:
                 return False
         if x[0] == "head_of":
-            if wf.setdefault(0, x[1]) != x[1]:
+            if wf.setdefault(0, x[1]) != x[1] and single_valued:
                 return False
-    if sum(1 for x in aset if x[0] == "head_of") > 1:
+    if sum(1 for x in aset if x[0] == "head_of") > 1 and single_valued:
         return False
     # closure may also infer works_for: only from head_of (handled above)
     writes = {}
     for x in aset:
         if x[0] in ("member_of.append", "member_of="):
             writes.setdefault(("member_of", x[1]), []).append(x[0])
-        if x[0] in ("members.add", "members="):
+        if x[0] in ("members.add", "members=", "members.add.ceo"):
             writes.setdefault(("members", x[1]), []).append(x[0])
         if x[0] in ("sub.append", "sub="):
             writes.setdefault(("sub", x[1]), []).append(x[0])
@@ -168,7 +185,7 @@ def consistent(aset):
 
 POOL = [("works_for", p, c) for p in range(NP) for c in range(2)] + [("head_of", c) for c in range(2)] + \
        [("member_of.append", p, c) for p in range(NP) for c in range(NC)] + [("member_of=", 1, (0, 2)), ("member_of=", 0, (1,))] + \
-       [("members.add", c, p) for c in range(NC) for p in range(NP)] + [("members=", 2, (0, 1))] + \
+       [("members.add", c, p) for c in range(NC) for p in range(NP)] + [("members=", 2, (0, 1))] + [("members.add.ceo", c) for c in range(2)] + \
        [("sub.append", x, y) for x in range(NC) for y in range(NC)] + [("sub=", 0, (1, 2)), ("sub=", 2, (0,))]
 
 
@@ -187,7 +204,8 @@ def order_is_monotone(order):
     return True
 
 
-def check_set(aset):
+def check_set(aset, graph_only=False):
+    ROLE[0] = InterimCEO if (len(aset) + sum(len(repr(x)) for x in aset)) % 3 == 0 else CEO       # a third of the sets with the role SUBclass
     want = closure([f for x in aset for f in asserted_facts(x)])
     orders = [o for o in itertools.permutations(aset) if order_is_monotone(o)]
     if len(orders) > 120:
@@ -195,13 +213,20 @@ def check_set(aset):
     for order in orders:
         ps, cs, ceo = population()
         st, r = guarded(lambda: [apply(x, ps, cs, ceo) for x in order])
-        inp = {"order": list(order)}
+        inp = {"order": list(order), "role_class": ROLE[0].__name__}
         rep.case((tuple(sorted(map(repr, aset))), order), nontrivial=len(want) > len(aset))
         kinds = "+".join(sorted({x[0].split(".")[0].rstrip("=") for x in aset}))
         if st == "exc":
             rep.fail(f"raised::{kinds}::{type(r).__name__}", f"{list(order)} raised {type(r).__name__}: {r}", inp)
             return
         fields, graph, dup, mult = observed(ps, cs, ceo)
+        if graph_only:
+            if graph != want:
+                missing, extra = sorted(want - graph), sorted(graph - want)
+                rep.fail(f"graph::{'missing' if missing else 'extra'}::overwritten-single-valued-field::{kinds}",
+                         f"after {list(order)} (a single-valued field is overwritten: only the graph is compared) the graph misses {missing[:3]} and has extra {extra[:3]}", inp)
+                return
+            continue
         if fields != want:
             missing, extra = sorted(want - fields), sorted(fields - want)
             rep.fail(f"fields::{'missing' if missing else 'extra'}::{kinds}", f"after {list(order)} the fields miss {missing[:3]} and have extra {extra[:3]}", inp)
@@ -230,9 +255,14 @@ scripted = [
     [("sub.append", 1, 2), ("sub=", 0, (1,))], [("sub=", 1, (2,)), ("sub=", 0, (1,))], [("sub.append", 2, 0), ("sub=", 0, (1,)), ("sub.append", 1, 2)],
     [("head_of", 0), ("members=", 1, (1,))], [("works_for", 0, 2), ("members=", 2, (1,))], [("member_of=", 0, (1,)), ("members.add", 2, 0)],
 ]
+scripted += [[("members.add.ceo", 0)], [("members.add.ceo", 1), ("works_for", 1, 1)], [("members.add.ceo", 0), ("head_of", 1)],
+             [("works_for", 0, 0), ("head_of", 1)], [("head_of", 0), ("works_for", 0, 1)], [("works_for", 1, 0), ("works_for", 1, 1)],
+             [("works_for", 0, 1), ("head_of", 0), ("member_of.append", 0, 2)]]
 for aset in scripted:
     if consistent(aset):
         check_set(aset)
+    elif consistent(aset, single_valued=False):
+        check_set(aset, graph_only=True)
 done = 0
 tries = 0
 while done < N_SETS and tries < 50 * N_SETS:
@@ -240,6 +270,8 @@ while done < N_SETS and tries < 50 * N_SETS:
     k = rng.randrange(1, MAXK + 1)
     aset = rng.sample(POOL, k)
     if not consistent(aset):
+        if consistent(aset, single_valued=False) and tries % 4 == 0:
+            check_set(aset, graph_only=True)
         continue
     check_set(aset)
     done += 1
